@@ -125,6 +125,11 @@ def corpus17():
                           ("if", [(("atom", v("f"), "==", c(1)), [("assign", "x", ("draw", ("bern", c(F(1, 3)))))])], None),
                           ("if", [(("atom", v("x"), "==", c(3)), [("assign", "y", P.det(("add", v("y"), c(1))))])], None)]},
                 [{"x": 2}, {"y": 1}, {"x": 1, "y": 1}], "conditioned-draw-with-smaller-support"))
+    # three-way choice whose MIDDLE alternative leaves the variable unchanged (a "stay" case that is not the last one)
+    out.append(({"types": [], "init": [("assign", "x", P.det(c(1))), ("assign", "y", P.det(c(0)))], "guard": ("true",),
+                 "body": [("assign", "x", ("choice", [(c(F(1, 4)), ("add", v("x"), c(1))), (c(F(1, 2)), v("x")), (c(F(1, 4)), ("sub", v("x"), c(1)))])),
+                          ("assign", "y", P.det(("add", v("y"), v("x"))))]},
+                [{"x": 1}, {"x": 2}, {"x": 1, "y": 1}], "choice>=3+stay-in-the-middle"))
     # loop guard
     out.append(({"types": [], "init": [("assign", "g", P.det(c(0))), ("assign", "m", P.det(c(0)))],
                  "guard": ("atom", v("g"), "==", c(0)),
